@@ -498,6 +498,60 @@ pub fn build_with_tombstones(t: &Rose, rng: &mut Rng) -> Tree {
     tree
 }
 
+/// Like `build_with_tombstones`, and in addition tips (a childless root included) may have HAD children: junk children are
+/// attached below them and pruned at the end, junk siblings may also follow the last real child, and an orphan node may be
+/// added with `Tree::add` and pruned.  The live tree is `t`; a single live node can sit in an arena of several slots.
+pub fn build_with_tombstones2(t: &Rose, rng: &mut Rng) -> Tree {
+    fn junk_below(tree: &mut Tree, parent: usize, rng: &mut Rng, junk: &mut Vec<usize>) {
+        let j = tree.add_child(Node::new_named("JUNK"), parent, Some(1.0)).unwrap();
+        if rng.chance(1, 2) {
+            tree.add_child(Node::new_named("JUNK2"), j, None).unwrap();
+        }
+        junk.push(j);
+    }
+    fn go(tree: &mut Tree, r: &Rose, me: usize, rng: &mut Rng, junk: &mut Vec<usize>) {
+        if r.kids.is_empty() {
+            if rng.chance(1, 3) {
+                junk_below(tree, me, rng, junk);
+            }
+            return;
+        }
+        for k in r.kids.iter() {
+            if rng.chance(1, 4) {
+                junk_below(tree, me, rng, junk);
+            }
+            let mut n = match &k.name {
+                Some(s) => Node::new_named(s),
+                None => Node::new(),
+            };
+            n.comment = k.comment.clone();
+            let id = tree.add_child(n, me, k.len).unwrap();
+            go(tree, k, id, rng, junk);
+        }
+        if rng.chance(1, 4) {
+            junk_below(tree, me, rng, junk);
+        }
+    }
+    let mut tree = Tree::new();
+    let mut rn = match &t.name {
+        Some(s) => Node::new_named(s),
+        None => Node::new(),
+    };
+    rn.comment = t.comment.clone();
+    rn.parent_edge = t.len;
+    let root = tree.add(rn);
+    let mut junk = vec![];
+    if t.kids.is_empty() {
+        // the property's smallest tree with a past: always some removed slots
+        junk_below(&mut tree, root, rng, &mut junk);
+    }
+    go(&mut tree, t, root, rng, &mut junk);
+    for j in junk {
+        tree.prune(&j).unwrap();
+    }
+    tree
+}
+
 /// exact scaled integer of a stream-A length, if it is one
 pub fn scaled(l: f64) -> Option<i64> {
     let v = l * UNIT as f64;
